@@ -10,6 +10,8 @@ import Proofs.SsfSrc
 import Proofs.SsfHandle
 import Proofs.SsfInner
 import Proofs.SsfMean
+import Proofs.SsfText
+import Proofs.SsfEval
 namespace Pydap.C19
 open Pydap Pydap.Handler Pydap.Ssf
 
@@ -303,6 +305,44 @@ theorem C19_transparent_clauses (app : Str → Str → Outcome) (fn : Str → St
   obtain ⟨lhs, c, rest, rfl, hc, hl⟩ := hsel s hs
   simp [isCallSel_comparison lhs rest c hc hl]
 
+/-- **Transparency from the request TEXT (round 7)**: a constraint that parses and whose text (after the one
+    `unquote` of `parse_ce`) holds no `(` is handed to the wrapped application unchanged — neither a projection item nor a
+    selection clause can be a call.  Together with `C19_transparent_clauses` (clauses whose *constant* holds
+    parentheses) this covers the function-free constraints of C04/C06 without referring to the middleware's own test. -/
+theorem C19_transparent_text (app : Str → Str → Outcome) (fn : Str → Str → Str → Except Exc Outcome)
+    (path query pre resp : Str) (proj : List ProjItem) (sel : List Str)
+    (hq : parseCE query = .ok (proj, sel)) (hp : rsplitDot path = some (pre, resp))
+    (hn : '(' ∉ unquote query) :
+    ssf app fn path query = app path query :=
+  C19_transparent app fn path query pre resp proj sel hq hp (hasCall_no_paren query proj sel hq hn)
+
+/-- **the value of a mean of a mean, one formula**: at every multi-index `ix` of the result, the double sum over the
+    two removed axes of the source value at `ix` with `i2` inserted at `k2` and then `i1` at `k1` (the common denominator
+    is the product of the two extents: `C19_mean_nested`) -/
+theorem C19_mean_nested_value (a r1 r2 : Arr) (k1 k2 : Nat) (hwf : a.data.length = prod a.shape)
+    (h1 : meanArr a k1 = .ok r1) (h2 : meanArr r1 k2 = .ok r2) (hk1 : k1 < a.shape.length)
+    (hk2 : k2 < (a.shape.eraseIdx k1).length) (ix : List Nat) (hv : ValidIx r2.shape ix) :
+    r2.data[flatIdx r2.shape ix]? =
+      some (((List.range (a.shape.eraseIdx k1)[k2]).map fun i2 =>
+        ((List.range a.shape[k1]).map fun i1 =>
+          (a.data[flatIdx a.shape ((ix.insertIdx k2 i2).insertIdx k1 i1)]?).getD 0).sum).sum) :=
+  meanArr_nested_value a r1 r2 k1 k2 hwf h1 h2 hk1 hk2 ix hv
+
+/-- **nesting to any depth, from the text**: the id `mean(…mean(mean(v,k1),k2)…,kn)` — as the client's proxy renders
+    it (`render`) and as `eval_function` parses it (`parseCall`, its own fuel) — evaluates (`evalMean`: arguments first,
+    then the function) to the chain `mean(·,kn) ∘ … ∘ mean(·,k1)` on the variable `v`, for every depth `n`, every
+    variable name and axis tokens free of `( ) ,` that read as decimal integers (negative ones included).  Each link of
+    the chain is `C19_mean`. -/
+theorem C19_mean_nested_text (env : Str → Option Arr) (v : Str) (a : Arr) (ks : List Str) (axes : List Int)
+    (hv : Plain v ∧ v ≠ []) (henv : env v = some a) (hks : ∀ k ∈ ks, Plain k ∧ k ≠ [])
+    (hax : ks.map parseIntChars = axes.map some) :
+    evalMean env (parseCall (render (meanTree v ks)).length (render (meanTree v ks))) = meanChainI (.ok a) axes := by
+  have hok : (meanTree v ks).Ok := meanTree_ok v hv ks (.tok v) (by simp only [Arg.Ok]; exact hv) hks
+  rw [(C19_proxy _ hok).1]
+  unfold meanTree
+  rw [evalMean_fold env ks axes _ hax]
+  simp only [evalMean, henv]
+
 /-- the guard is sharp: a string argument that contains a comma is split into two tokens (`encode`
     does not escape and the tokeniser does not know quotes), and an empty leaf is indistinguishable
     from no argument -/
@@ -329,6 +369,16 @@ example : ValidIx [2, 2] [1, 0] ∧ flatIdx [2, 2, 2] ([1, 0].insertIdx 1 1) = 6
 example : meanAxis ⟨[2, 3], [cs!"y", cs!"x"], [1, 2, 3, 4, 5, 6], 1⟩ (-1) = meanArr ⟨[2, 3], [cs!"y", cs!"x"], [1, 2, 3, 4, 5, 6], 1⟩ 1 ∧
     meanAxis ⟨[2, 3], [cs!"y", cs!"x"], [1, 2, 3, 4, 5, 6], 1⟩ (-3) = .error .valueError ∧
     meanAxis ⟨[2, 3], [cs!"y", cs!"x"], [1, 2, 3, 4, 5, 6], 1⟩ 2 = .error .valueError := by decide
+-- transparency from the text: the hypotheses hold for an ordinary constraint, and fail for one with a call
+example : '(' ∉ unquote cs!"a[0:2],s.i&s.i>1&s.t=%22x%22" ∧ '(' ∈ unquote cs!"a,mean%28b,0%29" := by decide
+-- nesting from the text: depth 3 on a rank-3 array, axes -1, 0, 0
+example : render (meanTree cs!"a" [cs!"-1", cs!"0", cs!"0"]) = cs!"mean(mean(mean(a,-1),0),0)" := by decide
+example : evalMean (fun s => if s = cs!"a" then some ⟨[2, 2, 2], [cs!"z", cs!"y", cs!"x"], [1, 2, 3, 4, 5, 6, 7, 8], 1⟩ else none)
+      (parseCall 26 cs!"mean(mean(mean(a,-1),0),0)") = .ok ⟨[], [], [36], 8⟩ := by rfl
+example : [cs!"-1", cs!"0", cs!"0"].map parseIntChars = ([-1, 0, 0] : List Int).map some ∧
+    (∀ k ∈ [cs!"-1", cs!"0", cs!"0"], Plain k ∧ k ≠ []) ∧
+    meanChainI (.ok ⟨[2, 2, 2], [cs!"z", cs!"y", cs!"x"], [1, 2, 3, 4, 5, 6, 7, 8], 1⟩) [-1, 0, 0] = .ok ⟨[], [], [36], 8⟩ :=
+  ⟨by decide, by decide, by rfl⟩
 -- a grid: the map of the removed axis goes, the other stays
 example : meanGridAxis ⟨⟨[2, 3], [cs!"y", cs!"x"], [1, 2, 3, 4, 5, 6], 1⟩, [(cs!"y", [10, 20]), (cs!"x", [7, 8, 9])]⟩ (-1)
     = .ok ⟨⟨[2], [cs!"y"], [6, 15], 3⟩, [(cs!"y", [10, 20])]⟩ := by decide
